@@ -739,6 +739,20 @@ var c01Resource = []c01Res{
 	{"include-cycle-through-included-child", func() map[string]string {
 		return map[string]string{"/main.tpl": "{% include \"/child.tpl\" %}", "/child.tpl": "{% extends \"/base.tpl\" %}{% block b %}{{ block.Super }}{% endblock %}", "/base.tpl": "{% block b %}{% include name only %}{% endblock %}"}
 	}, pongo2.Context{"name": "/child.tpl"}},
+	// a block information stored away with set / with / a macro argument and asked for its parent definition from
+	// inside that very definition (and other ways of carrying `block` around)
+	{"stored-block-info-super-cycle", func() map[string]string {
+		return map[string]string{"/main.tpl": "{% extends \"/base.tpl\" %}{% block a %}{% set b = block %}{{ block.Super }}{% endblock %}", "/base.tpl": "{% block a %}{{ b.Super }}{% endblock %}"}
+	}, nil},
+	{"stored-block-info-in-with-and-macro", func() map[string]string {
+		return map[string]string{"/main.tpl": "{% extends \"/base.tpl\" %}{% macro callsuper(bi) %}{{ bi.Super }}{% endmacro %}{% block a %}{% with w=block %}{{ w.Super }}{{ callsuper(block) }}{% endwith %}{% endblock %}", "/base.tpl": "{% block a %}{% if w %}{{ w.Super }}{% endif %}x{% endblock %}"}
+	}, nil},
+	{"stored-block-info-in-loop", func() map[string]string {
+		return map[string]string{"/main.tpl": "{% extends \"/base.tpl\" %}{% block a %}{% set b = block %}{% for i in z_two %}{{ b.Super }}{% endfor %}{% endblock %}", "/base.tpl": "{% block a %}{% for j in z_two %}{{ b.Super }}{% endfor %}{% endblock %}"}
+	}, pongo2.Context{"z_two": []int{1, 2}}},
+	{"block-info-passed-to-include", func() map[string]string {
+		return map[string]string{"/main.tpl": "{% extends \"/base.tpl\" %}{% block a %}{% include \"/inc.tpl\" with bi=block %}{% endblock %}", "/base.tpl": "{% block a %}{% include \"/inc.tpl\" with bi=bi %}{% endblock %}", "/inc.tpl": "{{ bi.Super }}"}
+	}, nil},
 	{"concurrent-loads", nil, nil},
 	{"extends-self", func() map[string]string { return map[string]string{"/main.tpl": "{% extends \"/main.tpl\" %}"} }, nil},
 	{"extends-cycle-2", func() map[string]string {
